@@ -1462,6 +1462,7 @@ def search_format(ck: Ck, name: str, n: int) -> None:
     found: dict[str, tuple] = {}
     shrinks = 0
     hung = 0
+    flex_known_reported = False
     for i in range(n):
         spec = fmt.gen(ck.rng)
         ck.count(f'roundtrip_{name}')
@@ -1482,6 +1483,29 @@ def search_format(ck: Ck, name: str, n: int) -> None:
                         return q is not None and (q[0], q[1]) == kind
                     small = U.shrink_spec(spec, unbalanced, budget=150)
                     found[key] = ((bb[0], bb[1]), small, U.brace_balance(fmt, small) or bb)
+        if name == 'vcd-text' and res is not None and (res[0], res[1]) == ('read-error', 'NotImplementedError') and U.has_flex(spec):
+            # the known finding (no reader for the flexanimations block).  What CAN be checked of such a scene still is: the blocks of
+            # the written file against the check's own reader, the rest of the file against the file of the scene without flex
+            # tracks, and that scene through the ordinary round trip (it replaces the spec below, except for the first one, which is
+            # shrunk and reported as the known finding)
+            ck.count('vcd_text_flex_scenes_checked_through_the_block_oracle_and_without_their_tracks')
+            fo = U.flex_oracle(fmt, spec)
+            ck.hist('oracle_vcd-text_flex_block', 'ok' if fo is None else fo[1])
+            if fo is not None:
+                key = f'{name}:{fo[0]}:{fo[1]}:block-as-written'
+                if key not in found and shrinks < 12:
+                    shrinks += 1
+
+                    def flex_fails(sp, kind=(fo[0], fo[1])):
+                        q = U.flex_oracle(fmt, sp) if U.has_flex(sp) else None
+                        return q is not None and (q[0], q[1]) == kind
+                    small = U.shrink_spec(spec, flex_fails, budget=150)
+                    found[key] = ((fo[0], fo[1]), small, U.flex_oracle(fmt, small) or fo)
+            if flex_known_reported:
+                spec = U.strip_flex(spec)
+                res = U.roundtrip(fmt, spec)
+                ck.hist('oracle_vcd-text_without_flex_tracks', 'ok' if res is None else res[0])
+            flex_known_reported = True
         if res is None or res[0] == 'build-error':
             if res is not None:
                 ck.count('generator_rejected_by_constructor')
@@ -1516,7 +1540,7 @@ def search_format(ck: Ck, name: str, n: int) -> None:
     for key, (_, small, r2) in found.items():
         ck.violation(key, f'{name}: {r2[0]} ({r2[1]}): write -> read -> compare -> write again fails on a representable value',
                      {'format': name, 'spec': small, 'result': [r2[0], r2[1], r2[2]],
-                      'how': f'harness.c20_util.roundtrip(FORMATS[{name!r}], spec)'})
+                      'how': f'harness.c20_util.{"flex_oracle" if r2[0] == "flex-block" else "brace_balance" if r2[0] == "unbalanced-braces" else "roundtrip"}(FORMATS[{name!r}], spec)'})
 
 
 OBSERVER_QUICK = {'cmdseq': 40, 'smd': 80, 'sndscript': 300, 'vmt': 150, 'pcf': 30, 'vcd-text': 50, 'vcd-binary': 50, 'scenes-image': 5}
@@ -2017,7 +2041,8 @@ def replay(data: dict) -> int:
     if isinstance(r, dict) and 'spec' in r and r.get('format') in U.FORMATS:
         fmt = U.FORMATS[r['format']]
         res = U.observer_check(fmt, r['spec']) if r.get('oracle') == 'observer' else \
-            (U.brace_balance(fmt, r['spec']) if r.get('result', [''])[0] == 'unbalanced-braces' else U.roundtrip(fmt, r['spec']))
+            (U.brace_balance(fmt, r['spec']) if r.get('result', [''])[0] == 'unbalanced-braces' else
+             U.flex_oracle(fmt, r['spec']) if r.get('result', [''])[0] == 'flex-block' else U.roundtrip(fmt, r['spec']))
         print('spec   :', json.dumps(r['spec'])[:2000])
         try:
             out = fmt.write(fmt.build(r['spec']))
